@@ -1258,4 +1258,335 @@ theorem generate_ranges (d : Display) (sd : Sds) (p : Peptide) (h : d.generate s
       exact ratio_range _ _ (List.length_filter_le _ _)
 
 
+/-! ### The watcher inside the pipeline is a T-cell history -/
+
+theorem afterTCell_tcell (s : Sys) (a : Nat) (ag : Agent) (p : Peptide) (mem : Memory) (t' : TCell) (r : Response)
+    (b : Nat) :
+    ((s.afterTCell a ag p mem t' r).1.agents b).tcell = if b = a then some t' else (s.agents b).tcell := by
+  unfold Sys.afterTCell
+  cases ag.record with
+  | none =>
+    simp only []
+    split <;> (simp only []; split <;> simp_all)
+  | some rec =>
+    simp only []
+    cases s.treg.evaluate r rec with
+    | raise => simp only []; split <;> simp_all
+    | ok su o m =>
+      simp only []
+      split <;> (simp only []; split <;> simp_all)
+
+/-- the fingerprint a pipeline inspection hands to the watcher of agent `a` — `none` when the watcher is not consulted
+    (untrained, no fingerprint, or the memory answers) -/
+def Sys.reachesTCell (s : Sys) (a : Nat) : Option Peptide :=
+  match (s.agents a).tcell, (s.agents a).display with
+  | some t, some p =>
+    match (recallGo a p.vocab p.struct (s.clock + 1) s.mem.sigs).2 with
+    | some _ => if !t.isAnergic && !(check t.profile p).isEmpty then none else some p
+    | none => some p
+  | _, _ => none
+
+theorem inspect_tcell (s : Sys) (a b : Nat) :
+    ((s.inspect a).1.agents b).tcell =
+      if b = a then
+        (match s.reachesTCell a, (s.agents a).tcell with
+         | some p, some t => some (t.inspect p).1
+         | _, _ => (s.agents a).tcell)
+      else (s.agents b).tcell := by
+  unfold Sys.inspect Sys.reachesTCell
+  cases ht : (s.agents a).tcell with
+  | none => by_cases hb : b = a <;> simp [hb, ht]
+  | some t =>
+    cases hd : (s.agents a).display with
+    | none => by_cases hb : b = a <;> simp [hb, ht]
+    | some p =>
+      simp only []
+      cases hr : (recallGo a p.vocab p.struct (s.clock + 1) s.mem.sigs).2 with
+      | none =>
+        rw [afterTCell_tcell]
+      | some sig =>
+        simp only []
+        by_cases hg : (!t.isAnergic && !(check t.profile p).isEmpty) = true
+        · simp only [hg, if_true]
+          by_cases hb : b = a <;> simp [hb, ht]
+        · have hg' : (!t.isAnergic && !(check t.profile p).isEmpty) = false := by simpa using hg
+          simp only [hg', Bool.false_eq_true, if_false]
+          rw [afterTCell_tcell]
+
+
+theorem trun_append (h : List TOp) : ∀ (t : TCell) (op : TOp), t.run (h ++ [op]) = ((t.run h).step op).1 := by
+  induction h with
+  | nil => intro t op; simp [TCell.run]
+  | cons x r ih => intro t op; simp [TCell.run, ih]
+
+/-- a training that is not positive leaves the system as it is; a positive one installs a fresh default watcher for
+    that agent and touches no other agent's watcher -/
+theorem train_tcell (s : Sys) (b a : Nat) :
+    ((s.train b).2 = .sel .positive ∧
+      (a = b → ∃ pr, ((s.train b).1.agents a).tcell = some (TCell.fresh pr 3 5)) ∧
+      (a ≠ b → ((s.train b).1.agents a).tcell = (s.agents a).tcell)) ∨
+    ((s.train b).2 ≠ .sel .positive ∧ (s.train b).1 = s) := by
+  unfold Sys.train
+  by_cases hr : (s.agents b).registered = true
+  · simp only [hr, if_true]
+    cases hd : (s.agents b).display with
+    | none => right; simp
+    | some p =>
+      simp only []
+      cases ht : trainThymus ⟨s.minTrain, s.tol, s.varThr⟩ ⟨0, 0, 0⟩ (List.replicate s.minTrain.toNat p) with
+      | positive pr =>
+        left
+        refine ⟨rfl, ?_, ?_⟩
+        · intro hab; subst hab; exact ⟨pr, by simp [Sys.setAgent]⟩
+        · intro hab; simp [Sys.setAgent, hab]
+      | insufficient => right; simp
+      | anergic => right; simp
+      | raiseStats => right; simp
+  · right; simp [hr]
+
+/-- what one pipeline operation appends to the history of agent `a`'s watcher (`[]` after a positive training: a new
+    watcher).  Inspections answered from memory, or made without a fingerprint, do not reach the watcher.  Operations
+    issued while the agent has no watcher yet change nothing and are erased by the training that creates it. -/
+def stepHist (s : Sys) (a : Nat) (h : List TOp) : Op → List TOp
+  | .train b => if b = a ∧ (s.train b).2 = .sel .positive then [] else h
+  | .inspect b =>
+    if b = a then
+      match s.reachesTCell a with
+      | some p => h ++ [.inspect p]
+      | none => h
+    else h
+  | .flag b ne => if b = a then h ++ [.flag ne] else h
+  | .reset b => if b = a then h ++ [.reset] else h
+  | .resetFA b => if b = a then h ++ [.resetFA] else h
+  | .setRep b k => if b = a then h ++ [.setRep k] else h
+  | .setAnergy b k => if b = a then h ++ [.setAnergy k] else h
+  | .setProfile b pr => if b = a then h ++ [.setProfile pr] else h
+  | _ => h
+
+/-- the history of agent `a`'s watcher along a pipeline history -/
+def watcherHist (s : Sys) (a : Nat) (h : List TOp) : List Op → List TOp
+  | [] => h
+  | op :: rest => watcherHist (s.step op).1 a (stepHist s a h op) rest
+
+/-- the watcher the system holds for agent `a` is the default watcher created by the last positive training, run
+    through the history `h` -/
+def WInv (s : Sys) (a : Nat) (h : List TOp) : Prop :=
+  ∀ t, (s.agents a).tcell = some t → ∃ pr, t = (TCell.fresh pr 3 5).run h
+
+theorem setAgent_tcell (s : Sys) (b a : Nat) (ag : Agent) :
+    ((s.setAgent b ag).agents a).tcell = if a = b then ag.tcell else (s.agents a).tcell := by
+  unfold Sys.setAgent; by_cases h : a = b <;> simp [h]
+
+theorem configT_tcell (s : Sys) (b a : Nat) (f : TCell → TCell) :
+    ((s.configT b f).agents a).tcell = if a = b then (s.agents b).tcell.map f else (s.agents a).tcell := by
+  unfold Sys.configT
+  cases ht : (s.agents b).tcell with
+  | none => by_cases h : a = b <;> simp [h, ht]
+  | some t => rw [setAgent_tcell]; by_cases h : a = b <;> simp [h]
+
+theorem step_winv (s : Sys) (a : Nat) (h : List TOp) (op : Op) (inv : WInv s a h) :
+    WInv (s.step op).1 a (stepHist s a h op) := by
+  intro t ht
+  cases op with
+  | train b =>
+    simp only [Sys.step, stepHist] at ht ⊢
+    rcases train_tcell s b a with ⟨hp, h1, h2⟩ | ⟨hn, hs⟩
+    · by_cases hab : a = b
+      · obtain ⟨pr, hpr⟩ := h1 hab
+        rw [hpr] at ht; cases ht
+        simp only [hab, hp, and_self, if_true]
+        exact ⟨pr, rfl⟩
+      · rw [h2 hab] at ht
+        have : ¬ (b = a ∧ (s.train b).2 = .sel .positive) := fun hh => hab hh.1.symm
+        simp only [this, if_false]
+        exact inv t ht
+    · rw [hs] at ht
+      have : ¬ (b = a ∧ (s.train b).2 = .sel .positive) := fun hh => hn hh.2
+      simp only [this, if_false]
+      exact inv t ht
+  | inspect b =>
+    simp only [Sys.step, stepHist] at ht ⊢
+    rw [inspect_tcell] at ht
+    by_cases hab : a = b
+    · subst hab
+      simp only [if_true] at ht ⊢
+      cases hr : s.reachesTCell a with
+      | none => rw [hr] at ht; simp only [] ; exact inv t (by simpa using ht)
+      | some p =>
+        rw [hr] at ht
+        cases htc : (s.agents a).tcell with
+        | none => rw [htc] at ht; simp at ht
+        | some t0 =>
+          rw [htc] at ht
+          simp only [Option.some.injEq] at ht
+          obtain ⟨pr, hpr⟩ := inv t0 htc
+          refine ⟨pr, ?_⟩
+          simp only []
+          rw [trun_append, ← hpr, ← ht]; rfl
+    · have hba : ¬ b = a := fun e => hab e.symm
+      simp only [hab, hba, if_false] at ht ⊢
+      exact inv t ht
+  | flag b ne =>
+    simp only [Sys.step, stepHist, Sys.flag] at ht ⊢
+    cases htc : (s.agents b).tcell with
+    | none =>
+      rw [htc] at ht
+      by_cases hab : b = a
+      · subst hab; rw [htc] at ht; cases ht
+      · simp only [hab, if_false]; exact inv t ht
+    | some t0 =>
+      rw [htc] at ht; simp only [] at ht
+      rw [setAgent_tcell] at ht
+      by_cases hab : b = a
+      · subst hab
+        simp only [if_true] at ht ⊢
+        obtain ⟨pr, hpr⟩ := inv t0 htc
+        exact ⟨pr, by rw [trun_append, ← hpr]; simpa [TCell.step] using ht.symm⟩
+      · have : ¬ a = b := fun e => hab e.symm
+        simp only [this, hab, if_false] at ht ⊢
+        exact inv t ht
+  | reset b =>
+    simp only [Sys.step, stepHist, Sys.resetT] at ht ⊢
+    cases htc : (s.agents b).tcell with
+    | none =>
+      rw [htc] at ht
+      by_cases hab : b = a
+      · subst hab; rw [htc] at ht; cases ht
+      · simp only [hab, if_false]; exact inv t ht
+    | some t0 =>
+      rw [htc] at ht; simp only [] at ht
+      rw [setAgent_tcell] at ht
+      by_cases hab : b = a
+      · subst hab
+        simp only [if_true] at ht ⊢
+        obtain ⟨pr, hpr⟩ := inv t0 htc
+        exact ⟨pr, by rw [trun_append, ← hpr]; simpa [TCell.step] using ht.symm⟩
+      · have : ¬ a = b := fun e => hab e.symm
+        simp only [this, hab, if_false] at ht ⊢
+        exact inv t ht
+  | resetFA b =>
+    simp only [Sys.step, stepHist, Sys.resetT] at ht ⊢
+    cases htc : (s.agents b).tcell with
+    | none =>
+      rw [htc] at ht
+      by_cases hab : b = a
+      · subst hab; rw [htc] at ht; cases ht
+      · simp only [hab, if_false]; exact inv t ht
+    | some t0 =>
+      rw [htc] at ht; simp only [] at ht
+      rw [setAgent_tcell] at ht
+      by_cases hab : b = a
+      · subst hab
+        simp only [if_true] at ht ⊢
+        obtain ⟨pr, hpr⟩ := inv t0 htc
+        exact ⟨pr, by rw [trun_append, ← hpr]; simpa [TCell.step] using ht.symm⟩
+      · have : ¬ a = b := fun e => hab e.symm
+        simp only [this, hab, if_false] at ht ⊢
+        exact inv t ht
+  | setRep b k =>
+    simp only [Sys.step, stepHist] at ht ⊢
+    rw [configT_tcell] at ht
+    by_cases hab : b = a
+    · subst hab
+      simp only [if_true] at ht ⊢
+      cases htc : (s.agents b).tcell with
+      | none => rw [htc] at ht; simp at ht
+      | some t0 =>
+        rw [htc] at ht; simp only [Option.map_some, Option.some.injEq] at ht
+        obtain ⟨pr, hpr⟩ := inv t0 htc
+        exact ⟨pr, by rw [trun_append, ← hpr]; simpa [TCell.step] using ht.symm⟩
+    · have : ¬ a = b := fun e => hab e.symm
+      simp only [this, hab, if_false] at ht ⊢
+      exact inv t ht
+  | setAnergy b k =>
+    simp only [Sys.step, stepHist] at ht ⊢
+    rw [configT_tcell] at ht
+    by_cases hab : b = a
+    · subst hab
+      simp only [if_true] at ht ⊢
+      cases htc : (s.agents b).tcell with
+      | none => rw [htc] at ht; simp at ht
+      | some t0 =>
+        rw [htc] at ht; simp only [Option.map_some, Option.some.injEq] at ht
+        obtain ⟨pr, hpr⟩ := inv t0 htc
+        exact ⟨pr, by rw [trun_append, ← hpr]; simpa [TCell.step] using ht.symm⟩
+    · have : ¬ a = b := fun e => hab e.symm
+      simp only [this, hab, if_false] at ht ⊢
+      exact inv t ht
+  | setProfile b k =>
+    simp only [Sys.step, stepHist] at ht ⊢
+    rw [configT_tcell] at ht
+    by_cases hab : b = a
+    · subst hab
+      simp only [if_true] at ht ⊢
+      cases htc : (s.agents b).tcell with
+      | none => rw [htc] at ht; simp at ht
+      | some t0 =>
+        rw [htc] at ht; simp only [Option.map_some, Option.some.injEq] at ht
+        obtain ⟨pr, hpr⟩ := inv t0 htc
+        exact ⟨pr, by rw [trun_append, ← hpr]; simpa [TCell.step] using ht.symm⟩
+    · have : ¬ a = b := fun e => hab e.symm
+      simp only [this, hab, if_false] at ht ⊢
+      exact inv t ht
+  | register b =>
+    simp only [Sys.step, stepHist, Sys.register] at ht ⊢
+    rw [setAgent_tcell] at ht
+    by_cases hab : a = b
+    · subst hab; simp only [if_true] at ht; exact inv t ht
+    · simp only [hab, if_false] at ht; exact inv t ht
+  | showP b p =>
+    simp only [Sys.step, stepHist, Sys.showPeptide] at ht ⊢
+    split at ht
+    · rw [setAgent_tcell] at ht
+      by_cases hab : a = b
+      · subst hab; simp only [if_true] at ht; exact inv t ht
+      · simp only [hab, if_false] at ht; exact inv t ht
+    · exact inv t ht
+  | dropRecord b =>
+    simp only [Sys.step, stepHist, Sys.dropRecord] at ht ⊢
+    rw [setAgent_tcell] at ht
+    by_cases hab : a = b
+    · subst hab; simp only [if_true] at ht; exact inv t ht
+    · simp only [hab, if_false] at ht; exact inv t ht
+  | markUpdated b =>
+    simp only [Sys.step, stepHist, Sys.markUpdated] at ht ⊢
+    split at ht
+    · exact inv t ht
+    · rw [setAgent_tcell] at ht
+      by_cases hab : a = b
+      · subst hab; simp only [if_true] at ht; exact inv t ht
+      · simp only [hab, if_false] at ht; exact inv t ht
+  | expire => exact inv t ht
+  | pruneOld k => exact inv t ht
+  | importSigs d => exact inv t ht
+  | setTreg g => exact inv t ht
+  | setCap c => exact inv t ht
+  | peek => exact inv t ht
+  | forget m => exact inv t ht
+  | recall x y z => exact inv t ht
+
+theorem run_winv (ops : List Op) : ∀ (s : Sys) (a : Nat) (h : List TOp), WInv s a h →
+    WInv (s.run ops).1 a (watcherHist s a h ops) := by
+  induction ops with
+  | nil => intro s a h inv; simpa [Sys.run, watcherHist] using inv
+  | cons op rest ih =>
+    intro s a h inv
+    have := ih (s.step op).1 a _ (step_winv s a h op inv)
+    simpa [Sys.run, watcherHist] using this
+
+
+theorem inspect_repeated (t : TCell) (p : Peptide) (h : (t.inspect p).2.s2 = .repeated) :
+    t.repThr ≤ (t.anomaly : Int) + 1 := by
+  rcases inspect_spec t p with ⟨-, he⟩ | ⟨-, -, -, -, -, -, -, h' | h'⟩ | ⟨-, -, -, h', -⟩
+  · rw [he] at h; cases h
+  · rw [h'] at h; cases h
+  · rw [h'] at h; cases h
+  · rw [h'] at h
+    unfold signal2Of at h
+    split at h
+    · rename_i hc; simp at hc; exact hc
+    · split at h
+      · cases h
+      · split at h <;> cases h
+
 end Operon.Immune
